@@ -1610,12 +1610,31 @@ R"(
         return res;
     }
 
-    std::string make_visit_children(const sbe::level_members& members) const
+    std::string make_visit_children(
+        const sbe::level_members& members, const bool is_message = false) const
     {
         std::string res;
         auto member_visit_calls = make_member_visit_calls(members);
         if(member_visit_calls.empty())
         {
+            if(is_message)
+            {
+                // message has no members which can move the cursor to the end
+                // of the block (entries do this in their constructor)
+                return
+                    // clang-format off
+R"(
+    template<typename Visitor, typename Cursor>
+    SBEPP_CPP14_CONSTEXPR bool operator()(
+        ::sbepp::detail::visit_children_tag, Visitor&, Cursor& c) const
+    {
+        c.pointer() = (*this)(::sbepp::detail::get_level_tag{})
+            + (*this)(::sbepp::detail::get_block_length_tag{});
+        return false;
+    }
+)";
+                // clang-format on
+            }
             member_visit_calls.emplace_back("false");
         }
 
@@ -1671,7 +1690,7 @@ R"(
             is_flat_level(m.members),
             get_last_member(m.members),
             header_context.size);
-        const auto visit_children_impl = make_visit_children(m.members);
+        const auto visit_children_impl = make_visit_children(m.members, true);
 
         // it's not possible to make `operator()(visit_tag)` `constexpr` because
         // C++11 doesn't allow such function to return `void`
